@@ -48,6 +48,9 @@ func c11Alphabet(dea time.Duration) []bop {
 
 	ops = append(ops, bop{name: "ExpireAll", kind: "expireall"})
 
+	// stored as already long expired (the "write an expired value" idiom): due at the next cycle
+	ops = append(ops, bop{name: "Write(k0,ttl=-2m)", kind: "write", key: 0, val: 3, ttl: -2 * time.Minute})
+
 	return ops
 }
 
@@ -431,7 +434,7 @@ func init() {
 	Register(&Prop{
 		ID: "C11", Title: "The janitor deletes only entries expired longer than DeleteExpiredAfter",
 		Cells: c11Cells, Run: c11Run,
-		Rule: "explicit-state BFS over sequences of {Write default TTL, Write per-call TTL 10s, Advance 1m, Advance DeleteExpiredAfter+1s, Cleanup, ExpireAll} on 3 keys, " +
+		Rule: "explicit-state BFS over sequences of {Write default TTL, Write per-call TTL 10s, Write per-call TTL -2m, Advance 1m, Advance DeleteExpiredAfter+1s, Cleanup, ExpireAll} on 3 keys, " +
 			"for TimeToLive in {5m, Unlimited} x DeleteExpiredAfter in {24h, 1m, 1m with a never exceeded SysMemSoftLimit, 1m with CountSoftLimit 1 (exceeded only by entries the cycle deletes anyway, or by several kept keys: the model then evicts everything)} x 3 backends; Cleanup is the janitor's own invokeCleanup called through a verif-tagged accessor; " +
 			"after every transition Len and a full Walk are compared with the model (removed <=> expiry != never and expiry < now-DeleteExpiredAfter)",
 		Assumptions: []string{
